@@ -67,6 +67,36 @@ theorem float64_roundtrip (std : Stdlib) (o : Opts) (bits : Nat) :
   rw [this]
   simp [reifyPrim, Prim.toFloat, reifyPrim.wrap]
 
+/-- every uintN value of every width comes back unchanged -/
+theorem uint_roundtrip (std : Stdlib) (o : Opts) (bits n : Nat) (hr : n < 2 ^ bits) :
+    (normValue o (.uint n) >>= fun v =>
+      match v with
+      | .prim p => reifyPrim std (.uint bits) p
+      | _ => raise .typeMismatch) = .ok (.uint n) := by
+  have : normValue o (.uint n) = .ok (.prim (.uint n)) := by unfold normValue; rfl
+  rw [this]
+  have ho : overflowUint bits n = false := by simp [overflowUint, hr]
+  simp [reifyPrim, Prim.toUint, reifyPrim.wrap, ho]
+
+/-- a signed field never comes back as a different number: if the round trip succeeds at all, it returns `i`
+(for every width, whether or not `i` fits - a value outside the field's range cannot be in the field to begin with) -/
+theorem int_roundtrip_never_alters (std : Stdlib) (o : Opts) (bits : Nat) (i : Int) (s : Scalar)
+    (hb : bits = 8 ∨ bits = 16 ∨ bits = 32 ∨ bits = 64) (h : backInt std o bits i = .ok s) : s = .int i := by
+  unfold backInt at h
+  rw [show normValue o (.int i) = .ok (if i > 0 then .prim (.uint i.toNat) else .prim (.int i)) by unfold normValue; rfl] at h
+  by_cases hp : i > 0
+  · simp only [hp, if_true, Outcome.bind_ok] at h
+    have hs := C03.reify_int_meets_spec std bits (.uint i.toNat) hb
+    rw [h] at hs
+    have hi : ((i.toNat : Nat) : Int) = i := by omega
+    simp only [C03.toOpt, specConv, hi] at hs
+    split at hs <;> simp_all
+  · simp only [hp, if_false, Outcome.bind_ok] at h
+    have hs := C03.reify_int_meets_spec std bits (.int i) hb
+    rw [h] at hs
+    simp only [C03.toOpt, specConv] at hs
+    split at hs <;> simp_all
+
 /-! non-vacuity -/
 example : intRange 8 (-128) = true := by decide
 example : intRange 64 (2^63 - 1) = true := by decide
